@@ -140,8 +140,9 @@ Fixpoint sfree_chain (fuel : nat) (hx : sheap) (hd : N) (mem : tag) (a : alloc_s
     do n <- sload hx hd; do a1 <- release mem hd a; sfree_chain f (shdel hx hd) (sn_next n) mem a1
   end.
 
-(** link_all_externally(list, &h, &t): [src]/[mem] are the source's heap and allocator; the copy
-    chain is built in its own heap [hx]. [k] = remaining iterations, [fuel] bounds the cleanup. *)
+(** link_all_externally(dest, list, &h, &t): [src] is the source's heap, [mem] the DESTINATION's allocator
+    (dest->mem_calloc / dest->mem_free); the copy chain is built in its own heap [hx].
+    [k] = remaining iterations, [fuel] bounds the cleanup. *)
 Fixpoint slae_loop (k fuel : nat) (src : sheap) (mem : tag) (ins hd tl : N) (hx : sheap) (a : alloc_st)
   : res (option (N * N * sheap) * alloc_st) :=
   match k with
@@ -156,12 +157,12 @@ Fixpoint slae_loop (k fuel : nat) (src : sheap) (mem : tag) (ins hd tl : N) (hx 
           slae_loop k' fuel src mem (sn_next ni) (if hd =? 0 then id else hd) id hx1 a1
       end
   end.
-Definition sl_link_all_externally (l2 : slist) (a : alloc_st) : res (option (N * N * sheap) * alloc_st) :=
-  slae_loop (N.to_nat (sl_size l2)) (N.to_nat (sl_size l2)) (sl_heap l2) (sl_mem l2) (sl_head l2) 0 0 [] a.
+Definition sl_link_all_externally (l1 l2 : slist) (a : alloc_st) : res (option (N * N * sheap) * alloc_st) :=
+  slae_loop (N.to_nat (sl_size l2)) (N.to_nat (sl_size l2)) (sl_heap l2) (sl_mem l1) (sl_head l2) 0 0 [] a.
 
 Definition sl_add_all (l1 l2 : slist) (a : alloc_st) : res (stat * slist * alloc_st) :=
   if sl_size l2 =? 0 then Ok (CC_OK, l1, a) else
-  do (r, a1) <- sl_link_all_externally l2 a;
+  do (r, a1) <- sl_link_all_externally l1 l2 a;
   match r with
   | None => Ok (CC_ERR_ALLOC, l1, a1)
   | Some (hd, tl, hx) =>
@@ -176,7 +177,7 @@ Definition sl_add_all_at (l1 l2 : slist) (index : N) (a : alloc_st) : res (stat 
   if sl_size l2 =? 0 then Ok (CC_OK, l1, a) else
   do (st, nd, pv) <- sl_get_node_at l1 index;
   if negb (is_ok st) then Ok (st, l1, a) else
-  do (r, a1) <- sl_link_all_externally l2 a;
+  do (r, a1) <- sl_link_all_externally l1 l2 a;
   match r with
   | None => Ok (CC_ERR_ALLOC, l1, a1)
   | Some (hd, tl, hx) =>
@@ -429,20 +430,30 @@ Record siter := { si_index : N; si_next : N; si_current : N; si_prev : N }.
 
 Definition siter_init (l : slist) : siter := {| si_index := 0; si_next := sl_head l; si_current := 0; si_prev := 0 |}.
 
+(** prev = current; while (prev->next != next) prev = prev->next;   (prev is dereferenced on every test) *)
+Fixpoint sprev_walk (fuel : nat) (h : sheap) (pv nxt : N) : res N :=
+  do n <- sload h pv;
+  if sn_next n =? nxt then Ok pv else
+  match fuel with O => Fault OutOfFuel | S f => sprev_walk f h (sn_next n) nxt end.
+
+(** if (current) { prev = current; while (prev->next != next) prev = prev->next; } *)
+Definition sprev_of (l : slist) (current prev next : N) : res N :=
+  if negb (current =? 0) then sprev_walk (sfuel_of l) (sl_heap l) current next else Ok prev.
+
 Definition siter_next (l : slist) (it : siter) : res (stat * N * siter) :=
   if si_next it =? 0 then Ok (CC_ITER_END, 0, it) else
   do n <- sload (sl_heap l) (si_next it);
+  do pv <- sprev_of l (si_current it) (si_prev it) (si_next it);
   Ok (CC_OK, sn_data n,
-      {| si_index := si_index it + 1; si_next := sn_next n; si_current := si_next it;
-         si_prev := if negb (si_current it =? 0) then si_current it else si_prev it |}).
+      {| si_index := si_index it + 1; si_next := sn_next n; si_current := si_next it; si_prev := pv |}).
 
 Definition siter_remove (l : slist) (it : siter) (a : alloc_st) : res (stat * N * slist * siter * alloc_st) :=
   if si_current it =? 0 then Ok (CC_ERR_VALUE_NOT_FOUND, 0, l, it, a) else
   do (e, l', a') <- sl_unlinkn l (si_current it) (si_prev it) a;
   Ok (CC_OK, e, l', {| si_index := wsub (si_index it) 1; si_next := si_next it; si_current := 0; si_prev := si_prev it |}, a').
 
-(** new->next = iter->next; iter->current->next = new; prev = current; current = new;
-    if (index == size) tail = new; index++; size++. *)
+(** new->next = iter->next; iter->current->next = new;
+    if (index == size) tail = new; index++; size++.   (current / prev are not touched) *)
 Definition siter_add (l : slist) (it : siter) (x : N) (a : alloc_st) : res (stat * slist * siter * alloc_st) :=
   match alloc (sl_mem l) SNODE_BYTES a with
   | (None, a1) => Ok (CC_ERR_ALLOC, l, it, a1)
@@ -451,7 +462,7 @@ Definition siter_add (l : slist) (it : siter) (x : N) (a : alloc_st) : res (stat
       do h1 <- sset_next h0 (si_current it) id;
       let tail' := if si_index it =? sl_size l then id else sl_tail l in
       Ok (CC_OK, supd l (sl_size l + 1) (sl_head l) tail' h1,
-          {| si_index := si_index it + 1; si_next := si_next it; si_current := id; si_prev := si_current it |}, a1)
+          {| si_index := si_index it + 1; si_next := si_next it; si_current := si_current it; si_prev := si_prev it |}, a1)
   end.
 
 Definition siter_replace (l : slist) (it : siter) (x : N) : res (stat * N * slist) :=
@@ -470,11 +481,11 @@ Definition szip_next (l1 l2 : slist) (z : sziter) : res (stat * N * N * sziter) 
   if (sz1_next z =? 0) || (sz2_next z =? 0) then Ok (CC_ITER_END, 0, 0, z) else
   do n1 <- sload (sl_heap l1) (sz1_next z);
   do n2 <- sload (sl_heap l2) (sz2_next z);
+  do p1 <- sprev_of l1 (sz1_current z) (sz1_prev z) (sz1_next z);
+  do p2 <- sprev_of l2 (sz2_current z) (sz2_prev z) (sz2_next z);
   Ok (CC_OK, sn_data n1, sn_data n2,
       {| sz_index := sz_index z + 1; sz1_next := sn_next n1; sz2_next := sn_next n2;
-         sz1_current := sz1_next z; sz2_current := sz2_next z;
-         sz1_prev := if negb (sz1_current z =? 0) then sz1_current z else sz1_prev z;
-         sz2_prev := if negb (sz2_current z =? 0) then sz2_current z else sz2_prev z |}).
+         sz1_current := sz1_next z; sz2_current := sz2_next z; sz1_prev := p1; sz2_prev := p2 |}).
 Definition szip_add (l1 l2 : slist) (z : sziter) (e1 e2 : N) (a : alloc_st) : res (stat * slist * slist * sziter * alloc_st) :=
   match alloc (sl_mem l1) SNODE_BYTES a with
   | (None, a1) => Ok (CC_ERR_ALLOC, l1, l2, z, a1)
@@ -488,7 +499,7 @@ Definition szip_add (l1 l2 : slist) (z : sziter) (e1 e2 : N) (a : alloc_st) : re
           let t2 := if sz_index z =? sl_size l2 then id2 else sl_tail l2 in
           Ok (CC_OK, supd l1 (sl_size l1 + 1) (sl_head l1) t1 h1, supd l2 (sl_size l2 + 1) (sl_head l2) t2 h2,
               {| sz_index := sz_index z + 1; sz1_next := sz1_next z; sz2_next := sz2_next z;
-                 sz1_current := id1; sz2_current := id2; sz1_prev := sz1_current z; sz2_prev := sz2_current z |}, a2)
+                 sz1_current := sz1_current z; sz2_current := sz2_current z; sz1_prev := sz1_prev z; sz2_prev := sz2_prev z |}, a2)
       end
   end.
 Definition szip_remove (l1 l2 : slist) (z : sziter) (a : alloc_st) : res (stat * N * N * slist * slist * sziter * alloc_st) :=
